@@ -23,6 +23,13 @@
 
 static coap_context_t *ctx;
 
+/* coap_delete_all_resources() is an internal (_lkd-style) function: with locking compiled in it must run under the global lock */
+static void h_delete_all_resources(void) {
+  coap_lock_lock(ctx, return);
+  coap_delete_all_resources(ctx);
+  coap_lock_unlock(ctx);
+}
+
 /* ---- capture of what the library would send (linked with -Wl,--wrap=coap_socket_send) ---- */
 static uint8_t cap[4096];
 static size_t cap_len;
@@ -221,7 +228,7 @@ static void do_wk(char *table, char *filter, char *windows) {
   }
 out:
   free(full); full = NULL;
-  coap_delete_all_resources(ctx);
+  h_delete_all_resources();
   free(qs.s);
 }
 
@@ -247,7 +254,7 @@ static void do_body(char *table, char *filter) {
     printf("-");
   }
 out:
-  coap_delete_all_resources(ctx);
+  h_delete_all_resources();
   free(qs.s);
 }
 
@@ -312,7 +319,7 @@ static void do_get(char *table, char *filter, int szx) {
   else { h_puthex(stdout, body, blen); printf(":%u", nresp); }
 out:
   if (session) coap_session_release(session);
-  coap_delete_all_resources(ctx);
+  h_delete_all_resources();
   free(qs.s);
 }
 
